@@ -54,6 +54,18 @@ SimNext ==
   \/ \E S \in SimLinkSets : Link(S)
   \/ \E p \in Pkgs : \E w \in {"interface", "core"} : \E k \in {"tampered", "otherversion"} : Corrupt(p, w, k)
 
+(* The stale-subset sweep: every package is built; ONE package's interface is edited; then, in dependency order, each package  *)
+(* is either rebuilt or left as it is (a body edit marks "not rebuilt" in the history); then everything is linked.  Exhaustive:  *)
+(* |Pkgs| * 2^|Pkgs| behaviours per graph - every combination of a changed interface with fresh and stale dependents, which is *)
+(* where a link check that looks at only some of the (dependent, dependency) edges goes wrong.                                  *)
+Topo == IF Pkgs = Diamond4 THEN <<"A", "B", "C", "Main">> ELSE <<"A", "B", "Main">>
+SweepNext ==
+  LET k == Len(hist) n == Len(Topo) IN
+  \/ k = 0 /\ \E p \in Pkgs : EditI(p, IKindOf(p))
+  \/ k \in 1..n /\ (Build(Topo[k]) \/ EditB(Topo[k], BKindOf(Topo[k])))
+  \/ k = n + 1 /\ Link(Pkgs)
+SweepSpec == InitBuilt /\ [][SweepNext]_vars
+
 SimSpec == InitBuilt /\ [][SimNext]_vars
 SimSpecCold == Init /\ [][SimNext]_vars
 IKinds == {"addfn", "sig", "field", "variant", "traitmethod", "impl", "removefn"}
